@@ -3,7 +3,7 @@
    \NNN, \c, %[-]WIDTHdirective); [render_ref] its reference rendering.  [run_printf] is the model of
    FormatStringParser + Printf::print.  [value d] is the text of directive d for the file at hand (the
    path-valued ones are modelled in PrintfValue.v, the numeric ones come from the record C13 selects). *)
-Require Import Tables TablesOk Printf PrintfSpec PrintfProofs.
+Require Import Tables TablesOk Printf PrintfSpec PrintfProofs Entry EntryProofs.
 From Coq Require Import List Arith Bool.
 Import ListNotations.
 
@@ -28,6 +28,12 @@ Theorem C16_tables :
   map fst printf_directives = [65; 67; 68; 70; 71; 72; 77; 80; 83; 84; 85; 89; 97; 98; 99; 100; 102; 103; 104; 105; 107; 108; 109; 110; 112; 115; 116; 117; 121].
 Proof. split; [exact printf_escapes_ok|rewrite printf_directives_ok; reflexivity]. Qed.
 Print Assumptions C16_tables.
+
+(* %l is the link text exactly where the record the follow mode selects is that of a link, and nothing otherwise *)
+Theorem C16_link_target : forall cfg depth v, coherent v ->
+  printf_l_applies cfg depth v = match seen cfg depth v with Some r => is_lnk (st_type r) | None => false end.
+Proof. exact lname_only_unresolved. Qed.
+Print Assumptions C16_link_target.
 
 (* non-vacuity:  "[%-5d|%3f]\t%%\101\\"  with %d = "2" and %f = "name" *)
 Example C16_witness :
